@@ -253,3 +253,17 @@ def render(prog, kw=None):
 
 def all_tokens(prog, kw=None):
     return [t for l in to_lines(prog, kw) for t in l]
+
+
+def long_distance_sources(r):
+    """programs whose jumps span more than 2^15 / 2^16 emitted instructions: LOOP and WHILE bodies, a PROGRAM body that the
+    root has to jump over, forward and backward GOTOs.  -> list of (text, kind)"""
+    out = []
+    n = r.choice([17000, 23000, 33500])          # two instructions per statement line
+    body = " ;\n".join("a := %d" % (i % 7) for i in range(n))
+    out.append(("n := %d ;\nLOOP n DO\n%s ;\nc1 := c1 + 1\nEND ;\nz := c1" % (r.randint(0, 3), body), "long-loop"))
+    out.append(("n := %d ;\nWHILE n != 0 DO\n%s ;\nk := k + 1 ;\nn := n - 1\nEND ;\nz := k" % (r.randint(0, 2), body), "long-while"))
+    out.append(("PROGRAM big IN p DO\n%s ;\nx0 := p + 1\nEND\nx := RUN big WITH %d END ;\ny := x" % (body, r.randint(0, 5)), "long-program-body"))
+    out.append(("k := %d ;\nIF k = 1 THEN GOTO far ;\n%s ;\nu := 5 ;\nfar : w := k + 1" % (r.randint(0, 1), body), "long-forward-goto"))
+    out.append(("k := 0 ;\nback : k := k + 1 ;\n%s ;\nIF k = 1 THEN GOTO back ;\nw := k" % body, "long-backward-goto"))
+    return out
